@@ -72,6 +72,51 @@ def check(prog, rep, rule, want=('accept', 'parsestream')):
                     rep.finding(rule, 'ParseStream|source encoding', f.loc(n),
                                 'ParseStream over an AutoUTFInputStream is instantiated without AutoUTF as source encoding (%s): the detected UTF-16/32 code units '
                                 'are parsed as UTF-8 bytes' % targs[-120:], func=f.id)
+    if 'writers' in want:
+        n_w = 0
+        for f in sorted(prog.funcs.values(), key=lambda g: g.id):
+            if f.body is None or not in_json(f):
+                continue
+            for n in f.walk():
+                if n['k'] != 'CXXConstructExpr':
+                    continue
+                t = f.type(n)
+                m = re.match(r'rapidjson::(PrettyWriter|Writer)<(.*)>$', t)
+                if not m:
+                    continue
+                # template arguments: OutputStream, SourceEncoding, TargetEncoding, ...
+                depth, cur, targs = 0, '', []
+                for ch in m.group(2):
+                    if ch == '<':
+                        depth += 1
+                    elif ch == '>':
+                        depth -= 1
+                    if ch == ',' and depth == 0:
+                        targs.append(cur.strip())
+                        cur = ''
+                    else:
+                        cur += ch
+                targs.append(cur.strip())
+                if len(targs) < 3:
+                    continue
+                n_w += 1
+                rep.touch(f)
+                os_t, tgt = targs[0], targs[2]
+                if 'AutoUTFOutputStream' in os_t:
+                    want_t, ok = 'rapidjson::AutoUTF<...>', tgt.startswith('rapidjson::AutoUTF<')
+                else:
+                    mm = re.search(r'GenericStringBuffer<(rapidjson::\w+<[^<>]*>)', os_t)
+                    want_t = mm.group(1) if mm else None
+                    ok = want_t is not None and tgt.replace(' ', '') == want_t.replace(' ', '')
+                site = '%s -> %s|%s' % (m.group(1), os_t.split('<')[0].replace('rapidjson::', ''), f.loc(n))
+                if ok:
+                    rep.ok(rule, 'writer target encoding|' + site, sample={'writer': m.group(1), 'stream': os_t[:60], 'target_encoding': tgt[:40]})
+                else:
+                    rep.finding(rule, 'writer target encoding|%s -> %s' % (m.group(1), os_t.split('<')[0].replace('rapidjson::', '')), f.loc(n),
+                                'rapidjson %s over %s is instantiated with target encoding %s (expected %s): the code units pushed into the stream are not '
+                                'in the stream\'s encoding - non-ASCII text is written wrongly' % (m.group(1), os_t[:50], tgt[:40], want_t), func=f.id)
+        if n_w < 4:
+            raise AnalysisBroken('%s: fewer than 4 rapidjson writer constructions found (%d)' % (rule, n_w))
     if 'strings' in want:
         n_str = 0
         for f in sorted(prog.funcs.values(), key=lambda g: g.id):
